@@ -7,6 +7,11 @@
 //! model c15peer:
 //!   pconn ; f init|ping|pong|msg|raw … ; run <corrupt_off|-> <xor> <chunk sizes>
 //!       → n=<messages handed to the far custom handler> d=<digest> open|disc
+//!   replies → plaintext lengths of the messages the receiving node built itself (pongs, warnings)
+//! impl-side oracles (no model): delivered sequence = sent sequence or prefix + disconnect; a pong of
+//! exactly N bytes for every ping with ponglen N < 65532 and nothing for the others; no panic
+//! (catch_unwind around every read_event / process_events, the message sequence is reported); the
+//! node never tries to send more than LN_MAX_MSG_LEN; nothing is dropped silently.
 //!   pact1 … (garbage instead of act one) ; oracle-only cases are written as directives
 use ldk_verif_harness::common::*;
 use bitcoin::secp256k1::ecdh::SharedSecret;
@@ -27,6 +32,27 @@ use std::panic::AssertUnwindSafe;
 use std::sync::{Arc, Mutex};
 
 type Secp = Secp256k1<bitcoin::secp256k1::All>;
+
+/// keeps the error-level log lines (enqueue_message logs "Failed to encrypt a message of type .., dropping
+/// it!" when the encryptor refuses a message in a build without debug assertions)
+struct CapLogger { lines: Mutex<Vec<String>> }
+impl CapLogger { fn new() -> Self { CapLogger { lines: Mutex::new(vec![]) } } fn take(&self) -> Vec<String> { std::mem::take(&mut *self.lines.lock().unwrap()) } }
+impl lightning::util::logger::Logger for CapLogger {
+	fn log(&self, r: lightning::util::logger::Record) {
+		if r.level >= lightning::util::logger::Level::Error { let mut l = self.lines.lock().unwrap(); if l.len() < 20 { l.push(format!("{}", r.args)); } }
+	}
+}
+/// A panic inside the PeerManager while it handles what a peer sent / what it has to send.
+fn report_panic(rec: &mut Rec, p: &str, ctx: &str, seq: &str) {
+	let what = if p.contains("longer than 65535") { "node tried to send a message longer than LN_MAX_MSG_LEN: " } else { "" };
+	rec.oracle_fail(format!("{}PeerManager panicked while processing a peer's message: {} ; {} ; message sequence: {}", what, p, ctx, seq));
+}
+/// error-level log lines of a node: the release-build face of the same failure
+fn check_log(rec: &mut Rec, log: &CapLogger, ctx: &str, seq: &str) {
+	for l in log.take() {
+		if l.contains("Failed to encrypt") { rec.oracle_fail(format!("node tried to send a message longer than LN_MAX_MSG_LEN ({}): a message was silently dropped (sent by the handler, never delivered, no disconnect) ; {} ; message sequence: {}", l, ctx, seq)); }
+	}
+}
 
 fn sk(b: [u8; 32]) -> SecretKey { SecretKey::from_slice(&b).unwrap() }
 fn rand_sk(rng: &mut Rng) -> SecretKey { loop { if let Ok(k) = SecretKey::from_slice(&rng.bytes32()) { return k; } } }
@@ -119,7 +145,7 @@ fn cipher_session(rec: &mut Rec, rng: &mut Rng, secp: &Secp, ini: &Party, res: &
 		let ab = if left_ba == 0 { true } else if left_ab == 0 { false } else { rng.chance(left_ab as u64, (left_ab + left_ba) as u64) };
 		let (snd, rcv, s, r) = if ab { left_ab -= 1; (&mut a, &mut b, "A", "B") } else { left_ba -= 1; (&mut b, &mut a, "B", "A") };
 		let sz = msg_size(rng, RARE_BIG.load(std::sync::atomic::Ordering::Relaxed)); let m = rng.bytes(sz);
-		let frame = match snd.encrypt_buffer(&m) { Ok(f) => f, Err(()) => { rec.oracle_fail("encrypt_buffer refused a message <= 65535".into()); return; } };
+		let frame = match outcome(|| snd.encrypt_buffer(&m)) { Ok(Ok(f)) => f, other => { rec.oracle_fail(format!("encrypt_buffer refused a {}-byte message (<= LN_MAX_MSG_LEN): {}", m.len(), match other { Err(p) => format!("panic {}", p), _ => "Err".into() })); return; } };
 		if frame.len() != m.len() + 34 { rec.oracle_fail(format!("frame length {} for message of {}", frame.len(), m.len())); }
 		let class = if m.len() > 60000 { "enc:max" } else if m.len() < 2 { "enc:tiny" } else { "enc" };
 		rec.case(&format!("enc {} {}", s, hex(&m)), &hex(&frame), class, true);
@@ -273,15 +299,16 @@ impl SocketDescriptor for Desc {
 	fn disconnect_socket(&mut self) { self.s.lock().unwrap().disconnected = true; }
 }
 
-type PM = PeerManager<Desc, &'static ErroringMessageHandler, &'static IgnoringMessageHandler, &'static IgnoringMessageHandler, &'static NullLogger, &'static Handler, &'static TestNodeSigner, &'static IgnoringMessageHandler>;
+type PM = PeerManager<Desc, &'static ErroringMessageHandler, &'static IgnoringMessageHandler, &'static IgnoringMessageHandler, &'static CapLogger, &'static Handler, &'static TestNodeSigner, &'static IgnoringMessageHandler>;
 
-struct Node { pm: PM, h: &'static Handler, id: PublicKey, secret: SecretKey }
+struct Node { pm: PM, h: &'static Handler, id: PublicKey, secret: SecretKey, log: &'static CapLogger }
 fn leak<T>(x: T) -> &'static T { Box::leak(Box::new(x)) }
 fn make_node(secp: &Secp, secret: SecretKey, eph: [u8; 32]) -> Node {
 	let h = leak(Handler::new());
 	let mh = MessageHandler { chan_handler: leak(ErroringMessageHandler::new()), route_handler: leak(IgnoringMessageHandler {}), onion_message_handler: leak(IgnoringMessageHandler {}), custom_message_handler: h, send_only_message_handler: leak(IgnoringMessageHandler {}) };
-	let pm = PeerManager::new(mh, 0, &eph, leak(NullLogger), leak(TestNodeSigner::new(secret)));
-	Node { pm, h, id: pk(secp, &secret), secret }
+	let log = leak(CapLogger::new());
+	let pm = PeerManager::new(mh, 0, &eph, log, leak(TestNodeSigner::new(secret)));
+	Node { pm, h, id: pk(secp, &secret), secret, log }
 }
 
 fn gen_payload(len: usize, seed: u64) -> Vec<u8> { (0..len).map(|i| (seed as usize + i * 31 + i / 256) as u8).collect() }
@@ -310,8 +337,55 @@ fn rand_budget(rng: &mut Rng) -> usize {
 #[derive(Clone, Copy, PartialEq)]
 enum Plan { Clean, Corrupt, Truncate }
 
-/// Two PeerManagers; `sender_is_initiator` picks which side queues the messages.
-fn pm_pair_scenario(rec: &mut Rec, rng: &mut Rng, secp: &Secp, n_msgs: usize, big: usize, sender_is_initiator: bool, plan: Plan, with_unknown: bool) {
+/// `num_pong_bytes` values at the edge of what a pong can carry (2 type + 2 length + N ≤ 65535)
+const BOUNDARY_PONGLENS: [u16; 7] = [0, 1, 65530, 65531, 65532, 65533, 65535];
+/// largest `byteslen` of a ping that still fits a frame: 2 type + 2 ponglen + 2 byteslen + N ≤ 65535
+const MAX_PING_BYTESLEN: u16 = 65529;
+/// BOLT 1: a ping is answered iff num_pong_bytes < 65532 (stated here independently of the Lean model)
+fn bolt1_pong_for(ponglen: u16) -> Option<usize> { if ponglen < 65532 { Some(ponglen as usize) } else { None } }
+fn ping_body(ponglen: u16, byteslen: u16) -> Vec<u8> { let mut v = ponglen.to_be_bytes().to_vec(); v.extend(byteslen.to_be_bytes()); v.extend(vec![0u8; byteslen as usize]); v }
+
+/// One message a custom handler queues: an application message, or a `ping` (type 18, written through
+/// the custom-message path) whose two numbers the sending peer chooses.
+#[derive(Clone, Debug)]
+enum PMsg { Custom { ty: u16, len: usize, seed: u64 }, Ping { ponglen: u16, byteslen: u16 } }
+impl PMsg {
+	fn raw(&self) -> Raw { match self { PMsg::Custom { ty, len, seed } => Raw { ty: *ty, data: gen_payload(*len, *seed) }, PMsg::Ping { ponglen, byteslen } => Raw { ty: 18, data: ping_body(*ponglen, *byteslen) } } }
+	fn plain_len(&self) -> usize { 2 + match self { PMsg::Custom { len, .. } => *len, PMsg::Ping { byteslen, .. } => 4 + *byteslen as usize } }
+	fn directive(&self) -> String { match self { PMsg::Custom { ty, len, seed } => format!("f msg {} {} {}", ty, len, seed), PMsg::Ping { ponglen, byteslen } => format!("f ping {} {}", ponglen, byteslen) } }
+	fn desc(&self) -> String { match self { PMsg::Custom { ty, len, .. } => format!("{}:{}", ty, len + 2), PMsg::Ping { ponglen, byteslen } => format!("ping(ponglen={},byteslen={})", ponglen, byteslen) } }
+}
+fn seq_desc(msgs: &[PMsg]) -> String {
+	if msgs.len() <= 40 { return msgs.iter().map(|m| m.desc()).collect::<Vec<_>>().join(","); }
+	let pings: Vec<String> = msgs.iter().enumerate().filter(|(_, m)| matches!(m, PMsg::Ping { .. })).take(40).map(|(i, m)| format!("#{} {}", i, m.desc())).collect();
+	format!("{} messages, first {} … pings [{}]", msgs.len(), msgs.iter().take(8).map(|m| m.desc()).collect::<Vec<_>>().join(","), pings.join(","))
+}
+fn rand_ping(rng: &mut Rng, allow_max_bytes: bool) -> PMsg {
+	let mut ponglen = match rng.below(10) { 0..=3 => *rng.pick(&BOUNDARY_PONGLENS), 4 | 5 => rng.range(65520, 65535) as u16, 6 => rng.below(65536) as u16, _ => rng.below(300) as u16 };
+	if ponglen == 66 { ponglen = 67; } // a 70-byte pong frame would look like the node's own 70-byte ping
+	let mut byteslen = match rng.below(12) { 0 if allow_max_bytes => MAX_PING_BYTESLEN, 0 | 1 => 0, 2 => 1, 3 => rng.range(1000, 9000) as u16, _ => rng.below(200) as u16 };
+	if byteslen == 64 { byteslen = 65; } // … and a 70-byte ping like its own ping
+	PMsg::Ping { ponglen, byteslen }
+}
+fn lens(v: &[usize]) -> String { if v.is_empty() { "-".into() } else { v.iter().map(|c| c.to_string()).collect::<Vec<_>>().join(",") } }
+/// "pong of N bytes expected for ping ponglen N, got …": compares the replies the receiving node wrote
+/// (plaintext lengths, its own 70-byte pings removed) with what BOLT 1 asks for; `exact` = the
+/// connection stayed open, so every reply must have been written, otherwise a prefix
+fn check_replies(rec: &mut Rec, got: &[usize], want: &[(usize, String)], exact: bool, ctx: &str, seq: &str) {
+	for (k, (w, why)) in want.iter().enumerate() {
+		match got.get(k) {
+			Some(g) if g == w => {},
+			Some(g) => { rec.oracle_fail(format!("pong of {} bytes expected for {}, got a {}-byte message (reply #{}) ; {} ; message sequence: {}", w - 4, why, g, k, ctx, seq)); return; },
+			None => { if exact { rec.oracle_fail(format!("pong of {} bytes expected for {}, got nothing: a message was silently dropped (sent by the handler, never delivered, no disconnect) ; {} ; message sequence: {}", w - 4, why, ctx, seq)); } return; },
+		}
+	}
+	if got.len() > want.len() { rec.oracle_fail(format!("unexpected {}-byte reply #{} (every ping answered was already accounted for) ; {} ; message sequence: {}", got[want.len()], want.len(), ctx, seq)); }
+}
+
+/// Two PeerManagers; `sender_is_initiator` picks which side queues the messages (application messages
+/// and `n_pings` pings with peer-chosen `ponglen` / `byteslen`); the other side's replies (pongs) travel
+/// back over the same fragmenting / back-pressuring sockets.
+fn pm_pair_scenario(rec: &mut Rec, rng: &mut Rng, secp: &Secp, n_msgs: usize, big: usize, sender_is_initiator: bool, plan: Plan, with_unknown: bool, n_pings: usize) {
 	let a = make_node(secp, rand_sk(rng), rng.bytes32());
 	let b = make_node(secp, rand_sk(rng), rng.bytes32());
 	let (mut da, mut db) = (Desc::new(1), Desc::new(2));
@@ -321,22 +395,30 @@ fn pm_pair_scenario(rec: &mut Rec, rng: &mut Rng, secp: &Secp, n_msgs: usize, bi
 	let (snd, rcv) = if sender_is_initiator { (&a, &b) } else { (&b, &a) };
 	let hs_len = if sender_is_initiator { 116 } else { 50 };
 
-	// the messages: (type, payload)
-	let mut msgs: Vec<(u16, usize, u64)> = vec![];
+	// the messages
+	let mut msgs: Vec<PMsg> = vec![];
 	for i in 0..n_msgs {
 		let mut len = if i < big { [65533usize, 65532, 65000, 40000][i % 4] } else { match rng.below(12) { 0 => 0, 1 => 1, 2 => rng.range(300, 3000) as usize, _ => rng.range(0, 200) as usize } };
 		if len == 68 || len == 2 { len += 1; } // plaintext 70 / 4 are the sizes of LDK's own ping / pong
 		let ty = if with_unknown && rng.chance(1, 6) { 20001 + 2 * rng.below(3000) as u16 } // unknown odd, not a BOLT type
 			else if with_unknown && rng.chance(1, 8) { 32768 + 4 * rng.below(100) as u16 + 3 } // custom-range, unknown to the reader, odd
 			else { 32768 + 4 * rng.below(8000) as u16 + rng.below(2) as u16 };
-		msgs.push((ty, len, rng.below(256)));
+		msgs.push(PMsg::Custom { ty, len, seed: rng.below(256) });
 	}
+	for k in 0..n_pings {
+		let m = if k < BOUNDARY_PONGLENS.len() && n_pings >= BOUNDARY_PONGLENS.len() {
+			PMsg::Ping { ponglen: BOUNDARY_PONGLENS[k], byteslen: if k == 3 && big > 0 { MAX_PING_BYTESLEN } else { [0u16, 1, 7, 300][k % 4] } }
+		} else { rand_ping(rng, big > 0 && k == 8) };
+		let at = rng.below(msgs.len() as u64 + 1) as usize; msgs.insert(at, m);
+	}
+	let seq = seq_desc(&msgs);
+	let ctx = format!("two PeerManagers, {} messages incl. {} pings, sender is the {}, plan {}", msgs.len(), n_pings, if sender_is_initiator { "initiator" } else { "responder" }, match plan { Plan::Clean => "clean", Plan::Corrupt => "one corrupted byte", Plan::Truncate => "truncated" });
 	let mut queued = false;
 	let mut fed = 0usize; // bytes of the sender's stream handed to the receiver
 	let mut chunks: Vec<usize> = vec![];
 	let mut disc = false;
 	let mut corrupt: Option<(usize, u8)> = None;
-	let total_cipher: usize = msgs.iter().map(|m| m.1 + 2 + 34).sum();
+	let total_cipher: usize = msgs.iter().map(|m| m.plain_len() + 34).sum();
 	let corrupt_at = if plan == Plan::Corrupt { Some(hs_len + rng.below((total_cipher + 60) as u64) as usize) } else { None };
 	let truncate_at = if plan == Plan::Truncate { Some(hs_len + rng.below((total_cipher + 60) as u64) as usize) } else { None };
 	let mut idle = 0;
@@ -347,7 +429,7 @@ fn pm_pair_scenario(rec: &mut Rec, rng: &mut Rng, secp: &Secp, n_msgs: usize, bi
 			a.pm.process_events(); b.pm.process_events();
 			if !queued && !a.pm.list_peers().is_empty() && !b.pm.list_peers().is_empty() {
 				let mut q = snd.h.outq.lock().unwrap();
-				for (ty, len, seed) in msgs.iter() { q.push((rcv.id, Raw { ty: *ty, data: gen_payload(*len, *seed) })); }
+				for m in msgs.iter() { q.push((rcv.id, m.raw())); }
 				queued = true;
 				drop(q);
 				snd.pm.process_events();
@@ -388,51 +470,72 @@ fn pm_pair_scenario(rec: &mut Rec, rng: &mut Rng, secp: &Secp, n_msgs: usize, bi
 			if idle > 80 { return; }
 		}
 	}));
-	if let Err(p) = r { rec.oracle_fail(format!("PeerManager panicked in a {}-message scenario: {}", n_msgs, p)); return; }
+	if let Err(p) = r { report_panic(rec, &p, &ctx, &seq); return; }
+	check_log(rec, a.log, &ctx, &seq); check_log(rec, b.log, &ctx, &seq);
 	if !queued && plan == Plan::Clean { rec.oracle_fail("handshake between two PeerManagers did not complete".into()); return; }
 
 	// ---- describe the sender's stream to the model: frames as the PeerManager wrote them
-	let sd = if sender_is_initiator { &da } else { &db };
+	#[derive(Clone, Copy, PartialEq)]
+	enum FK { Init, Msg(usize), OwnPing, OwnPong }
+	let (sd, rd) = if sender_is_initiator { (&da, &db) } else { (&db, &da) };
 	let frames = sd.s.lock().unwrap().frames.clone();
 	let n_hs = if sender_is_initiator { 2 } else { 1 };
 	rec.directive("pconn");
 	let mut next = 0usize;
-	let mut frame_of_msg: Vec<usize> = vec![]; // index (among post-handshake frames) of each custom message
+	let mut kinds: Vec<FK> = vec![]; // one per post-handshake frame
+	let mut frame_of_msg: Vec<usize> = vec![]; // index (among post-handshake frames) of each queued message
 	let mut offs = 0usize; let mut frame_start: Vec<usize> = vec![];
 	for (i, fl) in frames.iter().enumerate().skip(n_hs) {
 		let pl = fl - 34;
 		frame_start.push(offs); offs += fl;
-		if i == n_hs { rec.directive(&format!("f init {}", pl)); continue; }
-		if next < msgs.len() && msgs[next].1 + 2 == pl { rec.directive(&format!("f msg {} {} {}", msgs[next].0, msgs[next].1, msgs[next].2)); frame_of_msg.push(i - n_hs); next += 1; }
-		else if pl == 70 { rec.directive("f ping 70"); }
-		else if pl == 4 { rec.directive("f pong 4"); }
-		else { rec.oracle_fail(format!("unidentified frame of {} bytes in the sender's stream", fl)); return; }
+		if i == n_hs { rec.directive(&format!("f init {}", pl)); kinds.push(FK::Init); continue; }
+		if next < msgs.len() && msgs[next].plain_len() == pl { rec.directive(&msgs[next].directive()); frame_of_msg.push(i - n_hs); kinds.push(FK::Msg(next)); next += 1; }
+		else if pl == 70 { rec.directive("f ping 0 64"); kinds.push(FK::OwnPing); }
+		else if pl == 4 { rec.directive("f pong 0"); kinds.push(FK::OwnPong); }
+		else { rec.oracle_fail(format!("unidentified frame of {} bytes in the sender's stream ; {} ; message sequence: {}", fl, ctx, seq)); return; }
 	}
 	let got = rcv.h.received.lock().unwrap().clone();
 	let impl_ans = summary(&got, disc);
 	let (coff, cx) = match corrupt { Some((o, x)) => (o.to_string(), x), None => ("-".to_string(), 0) };
-	let sizes = if chunks.is_empty() { "-".to_string() } else { chunks.iter().map(|c| c.to_string()).collect::<Vec<_>>().join(",") };
-	let class = match (plan, corrupt.is_some(), with_unknown) { (Plan::Truncate, _, _) => "run:truncated", (_, true, _) => "run:corrupted", (_, false, true) => "run:unknown-odd", _ => "run:clean" };
-	rec.case(&format!("run {} {} {}", coff, cx, sizes), &impl_ans, class, true);
+	let class = match (plan, corrupt.is_some(), with_unknown, n_pings > 0) { (Plan::Truncate, _, _, _) => "run:truncated", (_, true, _, _) => "run:corrupted", (_, false, _, true) => "run:with-pings", (_, false, true, _) => "run:unknown-odd", _ => "run:clean" };
+	rec.case(&format!("run {} {} {}", coff, cx, lens(&chunks)), &impl_ans, class, true);
+	// the replies the receiving node wrote (its frames after the handshake and its Init; its own 70-byte pings are not replies)
+	let rframes = rd.s.lock().unwrap().frames.clone();
+	let r_hs = if sender_is_initiator { 1 } else { 2 };
+	let got_replies: Vec<usize> = rframes.iter().skip(r_hs + 1).map(|f| f - 34).filter(|pl| *pl != 70).collect();
+	if !disc { rec.case("replies", &lens(&got_replies), if got_replies.iter().any(|l| *l > 60000) { "replies:max-size-pong" } else if got_replies.is_empty() { "replies:none" } else { "replies" }, true); }
 
 	// ---- implementation-side oracle (no model): exact prefix, disconnect exactly when corrupted
 	let delivered_bytes = fed.saturating_sub(hs_len);
 	let limit_frame = match corrupt { Some((o, _)) => frame_start.iter().rposition(|s| *s <= o).unwrap_or(0), None => usize::MAX };
+	let processed = |fi: usize| fi < limit_frame && frame_start[fi] + frames[fi + n_hs] <= delivered_bytes;
 	let mut expect: Vec<Raw> = vec![];
-	for (k, (ty, len, seed)) in msgs.iter().enumerate() {
+	for (k, m) in msgs.iter().enumerate() {
 		if k >= frame_of_msg.len() { break; }
-		let fi = frame_of_msg[k];
-		if fi >= limit_frame { break; }
-		if frame_start[fi] + frames[fi + n_hs] > delivered_bytes { break; }
-		if reader_knows(*ty) { expect.push(Raw { ty: *ty, data: gen_payload(*len, *seed) }); }
+		if !processed(frame_of_msg[k]) { break; }
+		if let PMsg::Custom { ty, .. } = m { if reader_knows(*ty) { expect.push(m.raw()); } }
 	}
 	let corrupted_frame_complete = match corrupt { Some(_) => limit_frame < frame_start.len() && frame_start[limit_frame] + 18 <= delivered_bytes, None => false };
 	if got != expect {
 		let first = got.iter().zip(expect.iter()).position(|(x, y)| x != y).unwrap_or(got.len().min(expect.len()));
-		rec.oracle_fail(format!("delivered sequence differs from the sent one: got {} expected {} first difference at {} (plan corrupt={:?} trunc={:?})", got.len(), expect.len(), first, corrupt, truncate_at));
+		rec.oracle_fail(format!("delivered sequence differs from the sent one: got {} expected {} first difference at {} (plan corrupt={:?} trunc={:?}) ; {} ; message sequence: {}", got.len(), expect.len(), first, corrupt, truncate_at, ctx, seq));
 	}
 	if corrupt.is_some() && corrupted_frame_complete && !disc { rec.oracle_fail(format!("corrupted byte at stream offset {:?} did not drop the connection", corrupt)); }
-	if corrupt.is_none() && disc { rec.oracle_fail("connection dropped without any corruption".into()); }
+	if corrupt.is_none() && disc { rec.oracle_fail(format!("connection dropped without any corruption ; {} ; message sequence: {}", ctx, seq)); }
+	if plan == Plan::Clean && !disc && frame_of_msg.len() != msgs.len() {
+		rec.oracle_fail(format!("a message was silently dropped (sent by the handler, never delivered, no disconnect): message #{} {} was never written to the socket ; {} ; message sequence: {}", frame_of_msg.len(), msgs[frame_of_msg.len()].desc(), ctx, seq));
+	}
+	// pongs: one of exactly `ponglen` bytes per processed ping with ponglen < 65532 (the sender's own pings ask for 0)
+	let mut want: Vec<(usize, String)> = vec![];
+	for (fi, k) in kinds.iter().enumerate() {
+		if !processed(fi) { break; }
+		match k {
+			FK::Msg(j) => if let PMsg::Ping { ponglen, .. } = &msgs[*j] { if let Some(n) = bolt1_pong_for(*ponglen) { want.push((4 + n, format!("ping ponglen {} (message #{})", ponglen, j))); } },
+			FK::OwnPing => want.push((4, "the sender's own ping ponglen 0".into())),
+			_ => {},
+		}
+	}
+	check_replies(rec, &got_replies, &want, !disc, &ctx, &seq);
 }
 
 /// The harness itself is the peer (speaking through `Enc`) of one real PeerManager.
@@ -524,6 +627,122 @@ fn enc_scenario(rec: &mut Rec, rng: &mut Rng, secp: &Secp, plain: Vec<Vec<u8>>, 
 	if want_disc != disc { rec.oracle_fail(format!("{}: connection {} but the rules say {}", class, if disc { "dropped" } else { "kept" }, if want_disc { "drop" } else { "keep" })); }
 }
 
+/// one plaintext message the harness (as the peer) sends, with the directive that makes the model build the same bytes
+struct EM { plain: Vec<u8>, directive: String, desc: String }
+fn em_init() -> EM { EM { plain: vec![0xfe], directive: String::new(), desc: "init".into() } } // placeholder = echo of the node's Init
+fn em_ping(ponglen: u16, byteslen: u16) -> EM { let mut plain = vec![0u8, 18]; plain.extend(ping_body(ponglen, byteslen)); EM { plain, directive: format!("f ping {} {}", ponglen, byteslen), desc: format!("ping(ponglen={},byteslen={})", ponglen, byteslen) } }
+fn em_pong(byteslen: u16) -> EM { let mut plain = vec![0u8, 19]; plain.extend(byteslen.to_be_bytes()); plain.extend(vec![0u8; byteslen as usize]); EM { plain, directive: format!("f pong {}", byteslen), desc: format!("pong(byteslen={})", byteslen) } }
+fn em_custom(ty: u16, len: usize, seed: u64) -> EM { EM { plain: custom(ty, len, seed), directive: format!("f msg {} {} {}", ty, len, seed), desc: format!("{}:{}", ty, len + 2) } }
+fn em_raw(plain: Vec<u8>, what: &str) -> EM { EM { directive: format!("f raw {}", hex(&plain)), desc: format!("{}[{}]", what, hex(&plain[..plain.len().min(24)])), plain } }
+
+#[derive(Debug, PartialEq)]
+enum Reply { Pong(usize), Warning(String) }
+impl Reply {
+	fn plain(&self) -> Vec<u8> { match self {
+		Reply::Pong(n) => { let mut v = vec![0u8, 19]; v.extend((*n as u16).to_be_bytes()); v.extend(vec![0u8; *n]); v },
+		Reply::Warning(t) => { let mut v = vec![0u8, 1]; v.extend([0u8; 32]); v.extend((t.len() as u16).to_be_bytes()); v.extend(t.as_bytes()); v },
+	} }
+}
+fn describe_plain(m: &[u8]) -> String {
+	if m.len() >= 4 && m[0] == 0 && m[1] == 19 { format!("a pong with byteslen {} and {} padding bytes", u16::from_be_bytes([m[2], m[3]]), m.len() - 4) }
+	else if m.len() >= 36 && m[0] == 0 && m[1] == 1 { format!("a warning \"{}\"", String::from_utf8_lossy(&m[36..])) }
+	else { format!("a {}-byte message of type {}", m.len(), if m.len() >= 2 { u16::from_be_bytes([m[0], m[1]]) as i32 } else { -1 }) }
+}
+
+/// The harness is the peer (through `Enc`) and chooses message CONTENTS at the size boundaries; the node's
+/// answers are read back from its socket (random write budgets = partial writes), decrypted and checked.
+fn enc_boundary_scenario(rec: &mut Rec, rng: &mut Rng, secp: &Secp, msgs: Vec<EM>, class: &str, harness_initiates: bool) {
+	let mut p = match enc_connect(rng, secp, harness_initiates) { Ok(p) => p, Err(e) => { rec.oracle_fail(format!("handshake with a real PeerManager failed: {}", e)); return; } };
+	rec.directive("pconn");
+	let plains: Vec<Vec<u8>> = msgs.iter().map(|m| if m.plain.len() == 1 && m.plain[0] == 0xfe { p.their_init.clone() } else { m.plain.clone() }).collect();
+	let seq = msgs.iter().map(|m| m.desc.clone()).collect::<Vec<_>>().join(",");
+	let ctx = format!("{} (the harness is the peer and {} the connection)", class, if harness_initiates { "initiated" } else { "accepted" });
+	let mut stream: Vec<u8> = vec![];
+	let mut starts: Vec<usize> = vec![];
+	for (m, pl) in msgs.iter().zip(plains.iter()) {
+		starts.push(stream.len());
+		match outcome(|| p.enc.encrypt_buffer(pl)) { Ok(Ok(f)) => stream.extend(f), other => { rec.oracle_fail(format!("encrypt_buffer refused a {}-byte message (<= LN_MAX_MSG_LEN): {} ; {}", pl.len(), match other { Err(e) => format!("panic {}", e), _ => "Err".into() }, ctx)); return; } }
+		if m.directive.is_empty() { rec.directive(&format!("f raw {}", hex(pl))); } else { rec.directive(&m.directive); }
+	}
+	let mut chunks = vec![]; let mut pos = 0; let mut disc = false;
+	let mut node_out: Vec<u8> = vec![];
+	p.d.s.lock().unwrap().out.clear();
+	let r = guarded(AssertUnwindSafe(|| {
+		let pump = |p: &mut EncPeer, node_out: &mut Vec<u8>, budget: usize| {
+			let was_refused = { let mut s = p.d.s.lock().unwrap(); s.budget = budget; let r = s.refused; if budget > 0 { s.refused = false; } r && budget > 0 };
+			if was_refused { let _ = p.node.pm.write_buffer_space_avail(&mut p.d); }
+			p.node.pm.process_events();
+			let mut s = p.d.s.lock().unwrap(); let n = s.out.len(); node_out.extend(s.out.drain(..)); n
+		};
+		while pos < stream.len() {
+			let n = rand_chunk(rng, stream.len() - pos);
+			chunks.push(n);
+			p.d.s.lock().unwrap().budget = rand_budget(rng);
+			let res = p.node.pm.read_event(&mut p.d, &stream[pos..pos + n]);
+			pos += n;
+			if res.is_err() { disc = true; break; }
+			let b = rand_budget(rng); pump(&mut p, &mut node_out, b);
+			if p.d.s.lock().unwrap().disconnected { disc = true; break; }
+		}
+		if !disc { let mut quiet = 0; while quiet < 3 { if pump(&mut p, &mut node_out, usize::MAX / 2) == 0 { quiet += 1; } else { quiet = 0; } } }
+		else { let mut s = p.d.s.lock().unwrap(); node_out.extend(s.out.drain(..)); }
+	}));
+	if let Err(e) = r {
+		// the chunk being read when it panicked covers these messages
+		let (lo, hi) = (pos, pos + chunks.last().copied().unwrap_or(0));
+		let during: Vec<String> = (0..msgs.len()).filter(|i| starts[*i] < hi && starts.get(i + 1).copied().unwrap_or(stream.len()) > lo).map(|i| format!("#{} {}", i, msgs[i].desc)).collect();
+		report_panic(rec, &e, &format!("{} while {}", ctx, if pos >= stream.len() || during.is_empty() { "the node wrote its replies (everything had been read)".to_string() } else { format!("reading {}", during.join(" ")) }), &seq); return;
+	}
+	check_log(rec, p.node.log, &ctx, &seq);
+	let got = p.node.h.received.lock().unwrap().clone();
+	rec.case(&format!("run - 0 {}", lens(&chunks)), &summary(&got, disc), class, true);
+	// what the node wrote: decrypt it as the peer would
+	let mut replies: Vec<Vec<u8>> = vec![]; let mut o = 0usize;
+	while node_out.len() - o >= 18 {
+		let len = match p.enc.decrypt_length_header(&node_out[o..o + 18]) { Ok(l) => l as usize, Err(_) => { rec.oracle_fail(format!("the node's output does not decrypt (length header at offset {}) ; {} ; message sequence: {}", o, ctx, seq)); return; } };
+		if node_out.len() - o - 18 < len + 16 { break; } // cut off by the disconnect
+		let mut body = node_out[o + 18..o + 18 + len + 16].to_vec();
+		if p.enc.decrypt_message(&mut body).is_err() { rec.oracle_fail(format!("the node's output does not decrypt (body at offset {}) ; {} ; message sequence: {}", o, ctx, seq)); return; }
+		body.truncate(len); o += 18 + len + 16;
+		if body.len() == 70 && body[..6] == [0, 18, 0, 0, 0, 64] { continue; } // the node's own ping
+		replies.push(body);
+	}
+	if !disc && o != node_out.len() { rec.oracle_fail(format!("{} stray bytes at the end of the node's output ; {} ; message sequence: {}", node_out.len() - o, ctx, seq)); }
+	let got_lens: Vec<usize> = replies.iter().map(|r| r.len()).collect();
+	if !disc { rec.case("replies", &lens(&got_lens), if got_lens.iter().any(|l| *l > 60000) { "replies:max-size-pong" } else if got_lens.is_empty() { "replies:none" } else { "replies" }, true); }
+
+	// oracle, independent of the model: walk the plaintext list with the BOLT-1 rules
+	let mut expect = vec![]; let mut want: Vec<(Reply, String)> = vec![]; let mut want_disc = false; let mut seen_init = false;
+	for (i, m) in plains.iter().enumerate() {
+		if m.len() < 2 { want_disc = true; break; }
+		let ty = u16::from_be_bytes([m[0], m[1]]); let body = &m[2..];
+		if ty == 18 || ty == 19 {
+			let hdr = if ty == 18 { 4 } else { 2 };
+			if body.len() < hdr { want_disc = true; break; }
+			let declared = u16::from_be_bytes([body[hdr - 2], body[hdr - 1]]) as usize;
+			if body.len() - hdr < declared { want_disc = true; break; } // does not decode
+			if !seen_init { want_disc = true; break; }
+			if ty == 18 { let ponglen = u16::from_be_bytes([body[0], body[1]]); if let Some(n) = bolt1_pong_for(ponglen) { want.push((Reply::Pong(n), format!("ping ponglen {} (message #{})", ponglen, i))); } }
+			continue;
+		}
+		if (256..=258).contains(&ty) && body.len() < 64 { want.push((Reply::Warning(format!("Unreadable/bogus gossip message of type {}", ty)), format!("undecodable gossip message #{}", i))); continue; }
+		if ty == 16 { if seen_init { want_disc = true; break; } seen_init = true; continue; }
+		if !seen_init { want_disc = true; break; }
+		if reader_knows(ty) { expect.push(Raw { ty, data: body.to_vec() }); }
+		else if ty % 2 == 0 { want_disc = true; break; }
+	}
+	if got != expect { rec.oracle_fail(format!("{}: handler received {} messages, expected {} ; message sequence: {}", class, got.len(), expect.len(), seq)); }
+	if want_disc != disc { rec.oracle_fail(format!("{}: connection {} but the rules say {} ; message sequence: {}", class, if disc { "dropped" } else { "kept" }, if want_disc { "drop" } else { "keep" }, seq)); }
+	for (k, (w, why)) in want.iter().enumerate() {
+		match replies.get(k) {
+			Some(g) if *g == w.plain() => {},
+			Some(g) => { rec.oracle_fail(format!("{} expected for {}, got {} (reply #{}) ; {} ; message sequence: {}", match w { Reply::Pong(n) => format!("pong of {} bytes", n), Reply::Warning(t) => format!("warning \"{}\"", t) }, why, describe_plain(g), k, ctx, seq)); return; },
+			None => { if !disc { rec.oracle_fail(format!("{} expected for {}, got nothing: a message was silently dropped (sent by the handler, never delivered, no disconnect) ; {} ; message sequence: {}", match w { Reply::Pong(n) => format!("pong of {} bytes", n), Reply::Warning(t) => format!("warning \"{}\"", t) }, why, ctx, seq)); } return; },
+		}
+	}
+	if replies.len() > want.len() { rec.oracle_fail(format!("unexpected reply #{}: {} ; {} ; message sequence: {}", want.len(), describe_plain(&replies[want.len()]), ctx, seq)); }
+}
+
 fn custom(ty: u16, len: usize, seed: u64) -> Vec<u8> { let mut v = ty.to_be_bytes().to_vec(); v.extend(gen_payload(len, seed)); v }
 fn known_ty(rng: &mut Rng) -> u16 { 32768 + 4 * rng.below(8000) as u16 + rng.below(2) as u16 }
 
@@ -533,15 +752,47 @@ fn run_peer(args: &Args) {
 	let secp = Secp256k1::new();
 	let echo_init = vec![0xfeu8];
 
+	// (0) the harness as peer chooses message contents at the size boundaries
+	let n_bound = if args.thorough { 40 } else { 4 };
+	for round in 0..n_bound {
+		let hi = round % 2 == 0;
+		let k1 = known_ty(&mut rng);
+		// every boundary ponglen, byteslen from 0 to the maximum, maximum-size messages in both directions
+		let mut seq = vec![em_init()];
+		for (k, pl) in BOUNDARY_PONGLENS.iter().enumerate() { seq.push(em_ping(*pl, [0u16, 1, 5, MAX_PING_BYTESLEN, 0, 300, 2][k])); if k == 2 { seq.push(em_custom(k1, 65533, 3)); } }
+		seq.push(em_pong(0)); seq.push(em_pong(65531)); seq.push(em_ping(65531, MAX_PING_BYTESLEN)); seq.push(em_custom(k1, 4, 1));
+		enc_boundary_scenario(&mut rec, &mut rng, &secp, seq, "size:boundary-pings", hi);
+		// more answered pings than BUFFER_DRAIN_MSGS_PER_TICK (the node interleaves its own ping), random values near the edge
+		let mut seq = vec![em_init()];
+		for _ in 0..(36 + rng.below(10)) { let (pl, bl) = match rand_ping(&mut rng, false) { PMsg::Ping { ponglen, byteslen } => (ponglen, byteslen), _ => (0, 0) }; seq.push(em_ping(if pl > 400 && pl < 65500 { pl % 400 } else { pl }, bl)); if rng.chance(1, 5) { seq.push(em_custom(k1, rng.below(50) as usize, 2)); } }
+		enc_boundary_scenario(&mut rec, &mut rng, &secp, seq, "size:many-pings", hi);
+		// pings / pongs that do not decode drop the connection; what follows is never processed
+		for bad in [vec![0u8, 18], vec![0, 18, 0], vec![0, 18, 0, 0, 0], vec![0, 18, 0, 0, 0, 5, 0, 0, 0, 0], { let mut v = vec![0u8, 18, 0xff, 0xfc, 0xff, 0xff]; v.extend(vec![0u8; 100]); v }, vec![0, 19], vec![0, 19, 0, 3, 0, 0]] {
+			enc_boundary_scenario(&mut rec, &mut rng, &secp, vec![em_init(), em_ping(3, 2), em_raw(bad, "undecodable"), em_ping(1, 0), em_custom(k1, 3, 1)], "size:undecodable-ping-pong", hi);
+		}
+		// trailing bytes after a ping / pong are not looked at
+		let mut t1 = em_ping(65531, 2).plain; t1.extend([9u8, 9, 9]); let mut t2 = em_ping(65532, 0).plain; t2.extend([1u8]); let mut t3 = em_pong(1).plain; t3.extend([7u8; 40]);
+		enc_boundary_scenario(&mut rec, &mut rng, &secp, vec![em_init(), em_raw(t1, "ping(ponglen=65531,byteslen=2)+3 trailing"), em_raw(t2, "ping(ponglen=65532,byteslen=0)+1 trailing"), em_raw(t3, "pong(1)+40 trailing"), em_custom(k1, 3, 1)], "size:trailing-bytes", hi);
+		// gossip messages too short for their signature: a warning (built from the peer-chosen type), before and after Init, peer kept
+		let g = |ty: u16, n: usize, rng: &mut Rng| { let mut v = ty.to_be_bytes().to_vec(); v.extend(rng.bytes(n)); em_raw(v, "short-gossip") };
+		let seq = vec![g(256, 10, &mut rng), em_init(), g(256, 0, &mut rng), em_ping(2, 0), g(257, 63, &mut rng), g(258, 30, &mut rng), em_custom(k1, 3, 1)];
+		enc_boundary_scenario(&mut rec, &mut rng, &secp, seq, "size:undecodable-gossip-warning", hi);
+	}
+
 	// (1) two PeerManagers: identity delivery under fragmentation / coalescing / back-pressure
 	let (n_long, n_runs, n_small) = if args.thorough { (6000, 400, 300) } else { (1300, 60, 120) };
-	pm_pair_scenario(&mut rec, &mut rng, &secp, n_long, 6, true, Plan::Clean, false);
-	pm_pair_scenario(&mut rec, &mut rng, &secp, n_long - 150, 3, false, Plan::Clean, true);
+	pm_pair_scenario(&mut rec, &mut rng, &secp, n_long, 6, true, Plan::Clean, false, 0);
+	pm_pair_scenario(&mut rec, &mut rng, &secp, n_long - 150, 3, false, Plan::Clean, true, 45);
 	for i in 0..n_runs {
 		let plan = match i % 3 { 0 => Plan::Clean, 1 => Plan::Corrupt, _ => Plan::Truncate };
 		let n = 1 + rng.below(n_small) as usize;
-		let (c1, c2) = (rng.chance(1, 2), rng.chance(1, 2)); pm_pair_scenario(&mut rec, &mut rng, &secp, n, (i % 2) as usize, c1, plan, c2);
+		let (c1, c2) = (rng.chance(1, 2), rng.chance(1, 2));
+		// every other run carries pings: all seven boundary values of `ponglen`, or a few random ones
+		let n_pings = match i % 4 { 0 | 1 => 0, 2 => 7 + rng.below(4) as usize, _ => 1 + rng.below(5) as usize };
+		pm_pair_scenario(&mut rec, &mut rng, &secp, n, (i % 2) as usize, c1, plan, c2, n_pings);
 	}
+	// pings only, both directions of connection set-up, every boundary value, clean
+	for init in [true, false] { pm_pair_scenario(&mut rec, &mut rng, &secp, 3, 1, init, Plan::Clean, false, 12); }
 
 	// (2) the harness as peer: protocol rules
 	let n_rules = if args.thorough { 60 } else { 12 };
@@ -624,7 +875,9 @@ fn run_peer(args: &Args) {
 		oracle_case(&mut rec, &format!("note nonsense {}", seq.iter().skip(1).map(|m| format!("{}:{}", u16::from_be_bytes([m[0], m[1]]), m.len())).collect::<Vec<_>>().join(",")), "nonsense");
 	}
 	nonsense_chanman(&mut rec, &mut rng, &secp, if args.thorough { 1500 } else { 150 });
-	rec.notes.insert("rule".into(), "every `run` is one whole connection (distinct by its chunk-size list): two real PeerManagers joined by descriptors that fragment, coalesce and refuse writes per PRNG (one > 1000-message run per direction), or the harness speaking BOLT-8 through the Enc hook to one PeerManager (protocol rules, corruption at chosen offsets); garbage handshakes and nonsensical BOLT messages are oracle cases (no panic)".into());
+	// (5) reply_channel_range batches for queries covering 0 … more than two full batches of channels
+	range_reply_scenario(&mut rec, &mut rng, &secp, if args.thorough { 24_100 } else { 8_300 });
+	rec.notes.insert("rule".into(), "every `run` is one whole connection (distinct by its chunk-size list): two real PeerManagers joined by descriptors that fragment, coalesce and refuse writes per PRNG (one > 1000-message run per direction; pings with ponglen 0, 1, 65530, 65531, 65532, 65533, 65535 and byteslen up to 65529 among the messages, the pongs travelling back), or the harness speaking BOLT-8 through the Enc hook to one PeerManager (protocol rules, corruption at chosen offsets, size-boundary pings / pongs / 65535-byte messages under partial reads and writes with the node's answers decrypted); `replies` lines compare the lengths of the messages the node built itself with the model; garbage handshakes and nonsensical BOLT messages are oracle cases (no panic)".into());
 	rec.finish();
 }
 
@@ -687,8 +940,92 @@ fn nonsense_chanman(rec: &mut Rec, rng: &mut Rng, secp: &Secp, n_conn: usize) {
 			}
 			pm.socket_disconnected(&d);
 		}));
-		if let Err(e) = r { rec.oracle_fail(format!("well-formed message sequence panicked a node with a real ChannelManager: {} ; messages {:?}", e, seq.iter().skip(1).map(|m| hex(&m[..m.len().min(60)])).collect::<Vec<_>>())); pm.socket_disconnected(&d); }
+		if let Err(e) = r { rec.oracle_fail(format!("well-formed message sequence panicked a node with a real ChannelManager: {} ; messages {:?}", e, seq.iter().skip(1).map(|m| hex(&m[..m.len().min(60)])).collect::<Vec<_>>())); oracle_case(rec, "note nonsense-chanman aborted-after-panic", "nonsense:real-channelmanager"); return; } // the PeerManager's locks are poisoned now
 		oracle_case(rec, &format!("note nonsense-chanman {}", seq.iter().skip(1).map(|m| format!("{}:{}", u16::from_be_bytes([m[0], m[1]]), m.len())).collect::<Vec<_>>().join(",")), "nonsense:real-channelmanager");
+	}
+}
+
+/// (5) gossip query replies: a peer's `query_channel_range` makes the node build `reply_channel_range`
+/// messages whose size follows from how many channels the query covers; each batch must fit a frame.
+/// A node with a real P2PGossipSync over a graph of `n_chan` announced channels (one per block).
+fn range_reply_scenario(rec: &mut Rec, rng: &mut Rng, secp: &Secp, n_chan: usize) {
+	use bitcoin::hashes::Hash;
+	use lightning::routing::gossip::{NetworkGraph, NodeId, P2PGossipSync};
+	use lightning::types::features::ChannelFeatures;
+	let chain = bitcoin::constants::ChainHash::using_genesis_block(bitcoin::Network::Testnet);
+	let logger = leak(CapLogger::new());
+	let graph = leak(NetworkGraph::new(bitcoin::Network::Testnet, logger));
+	let mut keys: Vec<SecretKey> = (0..4).map(|_| rand_sk(rng)).collect();
+	if pk(secp, &keys[0]).serialize() > pk(secp, &keys[1]).serialize() { keys.swap(0, 1); } // "node_ids in channel_announcements must be sorted"
+	let ids: Vec<NodeId> = keys.iter().map(|k| NodeId::from_pubkey(&pk(secp, k))).collect();
+	for i in 0..n_chan {
+		let contents = msgs::UnsignedChannelAnnouncement { features: ChannelFeatures::empty(), chain_hash: chain, short_channel_id: ((i as u64) + 1) << 40, node_id_1: ids[0], node_id_2: ids[1], bitcoin_key_1: ids[2], bitcoin_key_2: ids[3], excess_data: vec![] };
+		let h = bitcoin::hashes::sha256d::Hash::hash(&contents.encode()[..]);
+		let m = bitcoin::secp256k1::Message::from_digest(h.to_byte_array());
+		let ann = msgs::ChannelAnnouncement { node_signature_1: secp.sign_ecdsa(&m, &keys[0]), node_signature_2: secp.sign_ecdsa(&m, &keys[1]), bitcoin_signature_1: secp.sign_ecdsa(&m, &keys[2]), bitcoin_signature_2: secp.sign_ecdsa(&m, &keys[3]), contents };
+		if let Err(e) = graph.update_channel_from_announcement_no_lookup(&ann) { rec.oracle_fail(format!("could not build the gossip graph: {}", e.err)); return; }
+	}
+	let node_secret = rand_sk(rng);
+	let sync = leak(P2PGossipSync::new(&*graph, None::<&'static lightning::util::test_utils::TestChainSource>, &*logger));
+	let mh = MessageHandler { chan_handler: leak(ErroringMessageHandler::new()), route_handler: &*sync, onion_message_handler: leak(IgnoringMessageHandler {}), custom_message_handler: leak(Handler::new()), send_only_message_handler: leak(IgnoringMessageHandler {}) };
+	let pm = PeerManager::new(mh, 0, &rng.bytes32(), &*logger, leak(TestNodeSigner::new(node_secret)));
+	let node_id = pk(secp, &node_secret);
+	let n = n_chan as u32;
+	// (first_blocknum, number_of_blocks): exactly one full batch, one more, one less, everything, nothing, a wrapping end
+	let queries: Vec<(u32, u32)> = vec![(1, 8000), (1, 8001), (1, 7999), (0, u32::MAX), (n + 5, 10), (2, 0), (1, 2 * 8000), (n - 8000 + 1, u32::MAX), (rng.range(1, 100) as u32, rng.range(1, n as u64) as u32)];
+	for (qi, (first, nblocks)) in queries.iter().enumerate() {
+		let mut d = Desc::new(5000 + qi as u64);
+		let (mut enc, init) = match enc_handshake_generic(&pm, node_id, rng, secp, &mut d) { Ok(x) => x, Err(e) => { rec.oracle_fail(format!("handshake with the gossip-backed PeerManager failed: {}", e)); return; } };
+		let mut q = vec![1u8, 7]; q.extend(chain.as_bytes()); q.extend(first.to_be_bytes()); q.extend(nblocks.to_be_bytes()); // 263 = query_channel_range
+		let ctx = format!("query_channel_range first_blocknum={} number_of_blocks={} against a graph of {} channels (one per block from block 1)", first, nblocks, n_chan);
+		let mut out: Vec<u8> = vec![];
+		let r = guarded(AssertUnwindSafe(|| {
+			for m in [&init, &q] {
+				let f = enc.encrypt_buffer(m).unwrap();
+				let mut pos = 0; while pos < f.len() { let k = rand_chunk(rng, f.len() - pos); if pm.read_event(&mut d, &f[pos..pos + k]).is_err() { return false; } pos += k; }
+				pm.process_events();
+			}
+			let mut quiet = 0;
+			while quiet < 3 {
+				let was_refused = { let mut s = d.s.lock().unwrap(); s.budget = if quiet > 0 { usize::MAX / 2 } else { rand_budget(rng) }; let r = s.refused; if s.budget > 0 { s.refused = false; } r && s.budget > 0 };
+				if was_refused { let _ = pm.write_buffer_space_avail(&mut d); }
+				pm.process_events();
+				let mut s = d.s.lock().unwrap(); if s.out.is_empty() { quiet += 1; } else { quiet = 0; out.extend(s.out.drain(..)); }
+			}
+			!d.s.lock().unwrap().disconnected
+		}));
+		match r {
+			Err(e) => { report_panic(rec, &e, &ctx, "init,query_channel_range"); return; }, // the PeerManager's locks are poisoned now
+			Ok(false) => { rec.oracle_fail(format!("the node dropped the connection on a well-formed query ; {}", ctx)); continue; },
+			Ok(true) => {},
+		}
+		check_log(rec, logger, &ctx, "init,query_channel_range");
+		// decrypt the node's output; keep the reply_channel_range messages (264)
+		let mut o = 0usize; let mut scids: Vec<u64> = vec![]; let mut n_replies = 0; let mut complete = false; let mut ok = true;
+		while out.len() - o >= 18 {
+			let len = match enc.decrypt_length_header(&out[o..o + 18]) { Ok(l) => l as usize, Err(_) => { rec.oracle_fail(format!("the node's output does not decrypt ; {}", ctx)); ok = false; break; } };
+			if out.len() - o - 18 < len + 16 { rec.oracle_fail(format!("the node's output ends inside a message ; {}", ctx)); ok = false; break; }
+			let mut body = out[o + 18..o + 18 + len + 16].to_vec();
+			if enc.decrypt_message(&mut body).is_err() { rec.oracle_fail(format!("the node's output does not decrypt ; {}", ctx)); ok = false; break; }
+			body.truncate(len); o += 18 + len + 16;
+			if body.len() < 2 || u16::from_be_bytes([body[0], body[1]]) != 264 { continue; }
+			// type 2, chain_hash 32, first_blocknum 4, number_of_blocks 4, sync_complete 1, encoding_len 2, encoding type 1, 8 per id
+			if body.len() < 46 || (body.len() - 46) % 8 != 0 { rec.oracle_fail(format!("malformed reply_channel_range of {} bytes ; {}", body.len(), ctx)); ok = false; break; }
+			let k = (body.len() - 46) / 8;
+			let enc_len = u16::from_be_bytes([body[43], body[44]]) as usize;
+			if enc_len != 1 + 8 * k { rec.oracle_fail(format!("reply_channel_range with {} ids declares encoding_len {} ; {}", k, enc_len, ctx)); }
+			if complete { rec.oracle_fail(format!("a reply_channel_range follows the one marked sync_complete ; {}", ctx)); }
+			complete = body[42] == 1;
+			for j in 0..k { scids.push(u64::from_be_bytes(body[46 + 8 * j..54 + 8 * j].try_into().unwrap())); }
+			n_replies += 1;
+			rec.case(&format!("rcr {}", k), &body.len().to_string(), if k >= 8000 { "range-reply:full-batch" } else if k == 0 { "range-reply:empty" } else { "range-reply" }, true);
+		}
+		if !ok { continue; }
+		let end = (*first as u64 + *nblocks as u64).min(1 << 24);
+		let want: Vec<u64> = if *nblocks == 0 { vec![] } else { (1..=n_chan as u64).filter(|b| *b >= *first as u64 && *b < end).map(|b| b << 40).collect() };
+		if scids != want { rec.oracle_fail(format!("reply_channel_range batches carry {} ids, the query covers {} (a message was silently dropped (sent by the handler, never delivered, no disconnect) or truncated) ; {} ; {} replies", scids.len(), want.len(), ctx, n_replies)); }
+		if n_replies == 0 || !complete { rec.oracle_fail(format!("the query was not answered completely ({} replies, last sync_complete={}) ; {}", n_replies, complete, ctx)); }
+		pm.socket_disconnected(&d);
 	}
 }
 
